@@ -223,3 +223,138 @@ def apply_reparent(t, p, edit, warm=None):
         c.node(i).pid = j
         return c, q, t, list(p)
     raise ValueError(how)
+
+
+# ------------------------------------------------------------------ a tree's queries describe its own current content
+
+
+def query_report(t, length_tol=1e-4):
+    """Every structural query of tree object `t` against the reference computed from t's OWN current table (id / pid / x / y / z).
+    Returns a list of problems ('' free: []).  Used (a) on every tree a library operation RETURNS - a derived tree must answer for
+    itself, not for the tree it was derived from - and (b) as a warm-up: whatever the queries memoise on the object is present when
+    the object is handed to the next operation.  Only for well-formed trees (ids = positions, root 0).
+
+    Sound: each item is the definition the respective property states (children / parent / tips / furcations / branches / paths /
+    segments / length / traversal); sibling order and order of the returned lists are not compared."""
+    import numpy as np
+
+    ids = [int(v) for v in t.id().tolist()]
+    p = [int(v) for v in t.pid().tolist()]
+    n = len(p)
+    ok, _ = ref.is_wellformed(ids, p)
+    if not ok:
+        return []
+    ch = ref.children(p)
+    out = []
+
+    def bad(msg):
+        if len(out) < 4:
+            out.append(msg)
+
+    def guard(what, fn):
+        try:
+            return True, fn()
+        except Exception as e:  # noqa: BLE001 - a query that raises on a well-formed tree is a finding
+            bad(f"{what} raised {type(e).__name__}: {e}")
+            return False, None
+
+    for i in range(n):
+        okk, v = guard(f"node({i}).children()", lambda: sorted(int(c.id) for c in t.node(i).children()))
+        if okk and v != ch[i]:
+            bad(f"node({i}).children() -> {v}, table says {ch[i]}")
+        okk, v = guard(f"node({i}).parent()", lambda: t.node(i).parent())
+        if okk and (-1 if v is None else int(v.id)) != p[i]:
+            bad(f"node({i}).parent() -> {None if v is None else int(v.id)}, table says {p[i]}")
+        okk, v = guard(f"node({i}).is_tip/is_furcation", lambda: (bool(t.node(i).is_tip()), bool(t.node(i).is_furcation())))
+        if okk and v != (len(ch[i]) == 0, len(ch[i]) >= 2):
+            bad(f"node({i}): is_tip/is_furcation {v} with children {ch[i]}")
+    okk, v = guard("get_tips", lambda: sorted(int(x.id) for x in t.get_tips()))
+    if okk and v != ref.tips(p):
+        bad(f"get_tips -> {v}, table says {ref.tips(p)}")
+    okk, v = guard("get_furcations", lambda: sorted(int(x.id) for x in t.get_furcations()))
+    if okk and v != ref.furcations(p):
+        bad(f"get_furcations -> {v}, table says {ref.furcations(p)}")
+    okk, v = guard("get_branches", lambda: sorted(tuple(int(i) for i in b.origin_id().tolist()) for b in t.get_branches()))
+    want = sorted(tuple(b) for b in ref.branches(p))
+    if okk and v != want:
+        bad(f"get_branches -> {v}, table gives {want}")
+    okk, v = guard("get_paths", lambda: sorted(tuple(int(i) for i in q.origin_id().tolist()) for q in t.get_paths()))
+    want = sorted(tuple(q) for q in ref.root_to_tip_paths(p))
+    if okk and v != want:
+        bad(f"get_paths -> {v}, table gives {want}")
+    okk, v = guard("get_segments", lambda: sorted(tuple(int(i) for i in s.origin_id().tolist()) for s in t.get_segments()))
+    want = sorted((p[c], c) for c in range(n) if p[c] != -1)
+    if okk and v != want:
+        bad(f"get_segments -> {v}, table gives {want}")
+    xyz = np.stack([t.x(), t.y(), t.z()], axis=1).astype(np.float64)
+    if np.all(np.isfinite(xyz)):
+        want_len = float(sum(np.linalg.norm(xyz[c] - xyz[p[c]]) for c in range(n) if p[c] != -1))
+        okk, v = guard("length", lambda: float(t.length()))
+        if okk and abs(v - want_len) > length_tol * max(1.0, want_len):
+            bad(f"length() -> {v}, the table's segments sum to {want_len}")
+    seen = []
+    okk, _ = guard("traverse", lambda: t.traverse(enter=lambda nd, pv: seen.append((int(nd.id), pv)) or int(nd.id)))
+    if okk:
+        if sorted(i for i, _ in seen) != list(range(n)):
+            bad(f"traverse visited {sorted(i for i, _ in seen)}")
+        elif any((pv if pv is not None else -1) != p[i] for i, pv in seen):
+            bad(f"traverse handed wrong parent values: {seen[:6]}")
+    return out
+
+
+DERIVATIONS = ("copy", "sort_tree", "get_subtree(first child)", "Node.subtree(first child)", "to_subtree([last])", "redirect_tree(last)",
+               "redirect_tree(last, sort=False) then sort_tree", "cat_tree(self, self)", "cut_tree()", "Translate", "Scale", "RotateZ", "swc round trip",
+               "copy of a copy after an in-place re-parenting")
+
+
+def derive(t, which):
+    """A tree DERIVED from tree object `t` by a library operation (t has typically been queried before: 'measure, derive, measure').
+    Returns the derived tree or None when the derivation does not apply to this tree.  The caller judges the derived tree against
+    the derived tree's own table."""
+    import io
+
+    from swcgeom.core import Tree, cat_tree, cut_tree, get_subtree, redirect_tree, sort_tree, to_subtree
+
+    n = len(t)
+    p = [int(v) for v in t.pid().tolist()]
+    kids = ref.children(p)[0]
+    if which == "copy":
+        return t.copy()
+    if which == "sort_tree":
+        return sort_tree(t)
+    if which == "get_subtree(first child)":
+        return get_subtree(t, kids[0]) if kids else None
+    if which == "Node.subtree(first child)":
+        return t.node(kids[0]).subtree() if kids else None
+    if which == "to_subtree([last])":
+        return to_subtree(t, [n - 1]) if n > 1 else None
+    if which == "redirect_tree(last)":
+        return redirect_tree(t, n - 1) if n > 1 else None
+    if which == "redirect_tree(last, sort=False) then sort_tree":
+        return sort_tree(redirect_tree(t, n - 1, sort=False)) if n > 1 else None
+    if which == "cat_tree(self, self)":
+        return cat_tree(t, t, n - 1, 0, translate=True)
+    if which == "cut_tree()":
+        return cut_tree(t)
+    if which == "Translate":
+        from swcgeom.transforms import Translate
+
+        return Translate(1.0, -2.0, 0.5)(t)
+    if which == "Scale":
+        from swcgeom.transforms import Scale
+
+        return Scale(2.0, 2.0, 2.0)(t)
+    if which == "RotateZ":
+        from swcgeom.transforms import RotateZ
+
+        return RotateZ(0.5)(t)
+    if which == "swc round trip":
+        return Tree.from_swc(io.StringIO(t.to_swc())) if ref.is_sorted(p) else None
+    if which == "copy of a copy after an in-place re-parenting":
+        ed = reparent_edits(p)
+        if not ed:
+            return None
+        c = t.copy()
+        c.node(ed[0][0]).pid = ed[0][1]
+        return c.copy()
+    raise ValueError(which)
